@@ -52,6 +52,17 @@ def source_hash() -> str:
     return h.hexdigest()[:20]
 
 
+def machinery_hash() -> str:
+    """Hash of the verification machinery itself (harness + specifications): part of every cache key."""
+    h = hashlib.sha256()
+    for f in sorted(list((VERIF / "harness" / "vf").rglob("*.py")) + list(SPEC.glob("*.tla"))):
+        if f.name.startswith("MC_"):
+            continue
+        h.update(f.name.encode())
+        h.update(f.read_bytes())
+    return h.hexdigest()[:12]
+
+
 def dyadic(x) -> dict | None:
     """float/int -> {"n","e"} with x = n / 2**e, or None when outside the model's value box."""
     fr = Fraction(x)
